@@ -4,7 +4,8 @@ from pyvc.api import *
 PROP = 'C16'
 REPLAYERS = {q: 'replayers/queue_ops.py' for q in (
     'queues.Queue.put', 'queues.Queue.get', 'queues.JoinableQueue.put', 'queues.JoinableQueue.task_done',
-    'queues.JoinableQueue.join', 'queues.Queue._feed')}
+    'queues.JoinableQueue.join', 'queues.Queue._feed', 'queues.SimpleQueue.get_payload',
+    'queues.SimpleQueue.send_payload', 'queues._SimpleQueue.get', 'queues._SimpleQueue.put')}
 
 ASSUMPTIONS = [
     'the capacity semaphore / locks / condition are the C SemLock wrappers (C17): acquire(block, timeout) returns False only '
@@ -294,7 +295,8 @@ def build(w):
                  },
         raises={},
     )
-    return [put, get, jput, task_done, join, feed]
+    import c16_simple
+    return [put, get, jput, task_done, join, feed] + c16_simple.simple_queue_contracts(w, PROP, pickled)
 
 
 MANIFEST_ENTRY = {
@@ -308,7 +310,11 @@ MANIFEST_ENTRY = {
             'nested loops with invariants over a prophecy of what other threads append) writes what was buffered first to the '
             'pipe first, each item exactly once, until the sentinel; JoinableQueue.put counts one unfinished task exactly when '
             'it buffers, task_done() takes one off, raises ValueError at zero and wakes the waiters exactly when the count '
-            'reaches zero, join() waits exactly when tasks are unfinished.',
+            'reaches zero, join() waits exactly when tasks are unfinished.  SimpleQueue (the pool\'s own task and result '
+            'queues): get_payload reads one whole message with the reader lock held, send_payload writes one with the writer '
+            'lock held (or without a lock where there is none), both release their lock on every way out, including a failing '
+            'pipe; get() unpickles exactly the message read, after the lock is released; put() pickles the object before '
+            'taking the lock and sends it once.',
     'note': 'This is the part of C16 a contract can state.  That every item is returned by exactly one get across processes, '
             'per-producer order, and "join returns exactly when" are compositions over all interleavings of producers, '
             'consumers and the feeder thread (plus C13 for the pipe and C17 for the wake-ups): not proved here.  SemLock '
